@@ -49,6 +49,9 @@ def valid_pool():
     pool.append(b"# c1\n@export\nA = 'a';\n")    # comment only
     pool.append(b"# c2\n@export\nA = 'a';\n")
     pool.append(b"@export\nA = 'b';\n")
+    pool.append(b"")                                   # an empty grammar is valid (no rules)
+    pool.append(b"\n")
+    pool.append(b"# nothing but a comment\n")
     import c15
     tricky = c15.TRICKY_LEX.replace("\u00ab\u00bb", "")
     pool.append(tricky.encode())                                   # quotes and '#' inside literals, quotes in comments
